@@ -208,12 +208,16 @@ void Body(Tape& t, Outcome& o) {
       bool inter = best == 0;
       if (!inter) {
         // containment without surface contact
-        if (oracle::Classify(s, so.v[0], 0) == 1 || oracle::Classify(so, s.v[0], 0) == 1) inter = true;
+        // (every vertex, not just the first: either solid may have several components, one of which can lie
+        // entirely inside the other solid)
+        for (auto& q : so.v) if (!inter && oracle::Classify(s, q, 0) == 1) inter = true;
+        for (auto& q : s.v) if (!inter && oracle::Classify(so, q, 0) == 1) inter = true;
       }
       double g2 = 64 * std::max(tol, other.GetTolerance()) + 1e-9 * std::max(scale, so.scale());
       if (inter || best > g2) {
         double want = inter ? 0.0 : std::min(best, search);
         double got = m.MinGap(other, search);
+        if (std::abs(got - want) > 1e-9 * (1 + want) && getenv("VERIF_DEBUG")) { Manifold x = m ^ other; fprintf(stderr, "DEBUG mingap: (m^other) tris=%zu vol=%g status=%d ; m tris=%zu other tris=%zu\n", x.NumTri(), x.Volume(), int(x.Status()), m.NumTri(), other.NumTri()); }
         if (std::abs(got - want) > 1e-9 * (1 + want)) { o.fail("measure:mingap", verif::fmt("MinGap=%.17g, brute force %.17g (search %.17g, separation %.17g)", got, want, search, best)); return; }
         o.cls(inter ? "mingap-intersecting" : best < search ? "mingap-within-search" : "mingap-beyond-search");
       }
